@@ -62,7 +62,8 @@ pub fn check(prop_values: bool, prop_signals: bool, d: &reg::IDesc, cfg: &dyn DC
 			Ok(x) => x,
 			Err(_) => break, // panics are C10's concern
 		};
-		let (ev, es) = rf.next(c);
+		let gotv: Vec<f64> = res.values().iter().map(|x| *x as f64).collect();
+		let (ev, es) = rf.next(c, &gotv);
 		steps += 1;
 		if std::env::var("YV_TRACE").is_ok() {
 			eprintln!("i={i} c={:?} got={:?} {:?} exp={:?} {:?}", c, res.values(), res.signals(), ev.iter().map(|a| (a.v, a.e)).collect::<Vec<_>>(), es);
